@@ -22,6 +22,7 @@ PY = os.environ.get("FV_PYTHON", "/venv/bin/python")
 if REPO not in sys.path:
     sys.path.insert(0, REPO)
 
+sys.set_int_max_str_digits(0)
 ALLOWED_AXIOMS = {"propext", "Classical.choice", "Quot.sound"}
 FORBIDDEN = re.compile(r"\b(sorry|admit|native_decide|bv_decide|implemented_by|unsafe)\b|^\s*axiom\s|maxHeartbeats\s+0\b")
 
